@@ -216,7 +216,7 @@ func poorProfile() chain.Profile {
 	p.MaxData = 3
 	p.Weights = map[string]int{"Blocks": 16, "StoreNew": 8, "Complete": 30, "Renew": 16, "Migrate": 8, "Claim": 4, "Terminate": 3,
 		"Drain": 4, "Refill": 2, "StoreUpdate": 3}
-	p.Sizes = []int64{4000} // (unclaimed income of a provider, in 10^-6 coins, has to stay below 2^31 as well)
+	p.Sizes = []int64{4000}                          // (unclaimed income of a provider, in 10^-6 coins, has to stay below 2^31 as well)
 	p.Durs = []int64{3600, 3600, 7200, 20000, 50000} // size x replica x duration stays below 2^31 (TLC integers)
 	p.Timeouts = []int64{20, 1800}
 	p.Replicas = []int64{1, 2}
